@@ -361,6 +361,10 @@ func errKind(err error) string {
 		return "size"
 	case strings.Contains(s, "unexpected response structure"):
 		return "response"
+	case strings.Contains(s, "unexpected response ID") || strings.Contains(s, "unexpected nonce length") || strings.Contains(s, "authentication failed"):
+		return "ntsProcess" // nts.ProcessResponse: other unique identifier / the authenticator does not verify
+	case strings.Contains(s, "packet does not contain") || strings.Contains(s, "invalid extension field length") || strings.Contains(s, "unexpected extension header type"):
+		return "ntsDecode" // nts.DecodePacket
 	case strings.Contains(s, "invalid packet authenticator") || strings.Contains(s, "authenticator"):
 		return "auth"
 	}
@@ -545,6 +549,9 @@ func exchange(c *lib.Ctx, lc liveClient, cfg exchCfg, sc script) (res exchResult
 
 // ---------------------------------------------------------------- op lines
 
+// scionBufLen: the SCION client's receive buffer (`buf := make([]byte, scion.MTU)`).
+const scionBufLen = 9216 - 20 - 8
+
 func prevStr(p client.VerifC03Prev, reference string) string {
 	ref := "other"
 	switch p.Reference {
@@ -562,6 +569,10 @@ func evIP(p *peer, sent []dgram, cRx int64, deadlineSet bool, bufCap int) string
 	var ev []string
 	for _, d := range sent {
 		v := fmt.Sprintf(":%s:%s:%s", lib.Bool(d.ntsDec), lib.Bool(d.ntsUID), lib.Bool(d.ntsOpen))
+		if d.wire != nil && len(d.wire) > scionBufLen {
+			ev = append(ev, "f:1") // longer than the SCION client's receive buffer: MSG_TRUNC
+			continue
+		}
 		if d.wire != nil {
 			var lvm, st uint8
 			var org, rx, tx ntp.Time64
@@ -614,7 +625,7 @@ func reachesNTP(p *peer, d dgram, ntsOn bool) bool {
 		return p.srcNum(d.src) == p.srcNum(srcServer) && len(d.b) >= 48 && (ntsOn || len(d.b) == 48) &&
 			len(d.b) <= nts.MaxPacketLen
 	}
-	return d.pathOK && len(d.b) >= 48
+	return d.pathOK && len(d.b) >= 48 && len(d.wire) <= scionBufLen
 }
 
 // echoes: C05's origin clause — the datagram echoes the outstanding request's transmit
@@ -671,7 +682,7 @@ func explain(p *peer, cfg exchCfg, res exchResult) (cands []usedCand) {
 		if d.wire != nil {
 			// SCION: whatever has the structure of a SCION/UDP packet with a whole NTP header,
 			// wherever it claims to come from — the address clause is judged by the oracle
-			if !(d.structOK && len(d.b) >= 48) {
+			if !(d.structOK && len(d.b) >= 48 && len(d.wire) <= scionBufLen) {
 				continue
 			}
 		} else if !reachesNTP(p, d, cfg.nts) {
